@@ -277,7 +277,7 @@ func (rn *runner) runItem(c *xcfg, w *world, cl *cluster, it xitem) {
 	fam := c.family()
 	var fc *faultCluster
 	if c.FailAlloc > 0 {
-		fc = &faultCluster{Cluster: cl.Cluster}
+		fc = &faultCluster{cluster: cl}
 	}
 	run := func(q request) {
 		k := &kase{World: w, Origin: layout, Req: q, Family: fam, FailAlloc: c.FailAlloc}
@@ -785,7 +785,7 @@ func replayFile(r *ev.Run, path string, merge func(*stats)) {
 	defer cl.close()
 	rn := &runner{st: newStats()}
 	if k.FailAlloc > 0 {
-		fc := &faultCluster{Cluster: cl.Cluster}
+		fc := &faultCluster{cluster: cl}
 		fc.arm(k.FailAlloc)
 		rn.exec(fc, k, origin, origin.Info())
 	} else {
